@@ -330,7 +330,9 @@ func (e entry) slot() common.Hash {
 	return evmsim.Slot(evmsim.CommitmentPath(e.Src, e.Dst, e.Seq))
 }
 
-func (e entry) claim() claim { return claim{Ack: e.Ack, Src: e.Src, Dst: e.Dst, Seq: e.Seq, Value: e.Value} }
+func (e entry) claim() claim {
+	return claim{Ack: e.Ack, Src: e.Src, Dst: e.Dst, Seq: e.Seq, Value: e.Value}
+}
 
 // mutation classes. rapid's SampledFrom/IntRange are biased towards small indices, so the class and the
 // gate are drawn through rapid.Permutation (uniform): every mutation class gets the same share, "none"
